@@ -471,6 +471,30 @@ def run(ctx: Ctx) -> int:
                 if same_outputs(a, b):
                     ctx.violation(f"seeds-{kind}", f"{kind} samplers with different seeds {seeds[i]} and {seeds[j]} return identical results",
                                   {"kind": kind, "seeds": [seeds[i], seeds[j]], "check": "seeds"})
+    # several samplers of the same circuit alive at the same time: each one's results depend on its own seed and history only
+    for kind, src in (("measurement", rep_src), ("detector", CIRCUITS["noisy-detect"])):
+        sd = seeds[0]
+        try:
+            alone = [make_sampler(kind, src, sd).sample(24, batch_size=8)]
+            s_ref = make_sampler(kind, src, sd)
+            alone.append(s_ref.sample(24, batch_size=8))
+            alone.append(s_ref.sample(7, batch_size=None if kind == "detector" else 7))
+            a = make_sampler(kind, src, sd)
+            b = make_sampler(kind, src, sd)
+            other = make_sampler(kind, src, sd + 1)        # never used, or used in between
+            ra1 = a.sample(24, batch_size=8)
+            rb1 = b.sample(24, batch_size=8)
+            other.sample(5, batch_size=5)
+            ra2 = a.sample(7, batch_size=None if kind == "detector" else 7)
+            rb2 = b.sample(7, batch_size=None if kind == "detector" else 7)
+        except Exception as e:  # noqa
+            ctx.violation(f"live-samplers-raise-{kind}", f"several live {kind} samplers of one circuit: raised {e!r}", {"kind": kind, "circuit": src, "seed": sd, "check": "live"})
+            continue
+        ctx.count(("live", kind), bucket="several-live-samplers")
+        if not (same_outputs([ra1, ra2], [rb1, rb2]) and same_outputs([ra1, ra2], alone[1:]) and same_outputs([alone[0]], [ra1])):
+            ctx.violation(f"live-samplers-{kind}", f"{kind} samplers of the same circuit and seed {sd} that are alive at the same time (and a third one with another seed) "
+                          "do not each reproduce the results of a sampler used alone",
+                          {"kind": kind, "circuit": src, "seed": sd, "check": "live"})
     # successive calls / successive batches of one sampler
     sd = seeds[0]
     s = make_sampler("measurement", rep_src, sd)
